@@ -11,6 +11,7 @@
 //	reset {case, src, label, cfg}           start of a case; cfg is the TLC-chosen configuration (src = "built")
 //	gen   {case, i, f}                      projection (internal/fproj) of generation i (0 = constructed, 1, 2 = read back)
 //	file  {case, i, how, sha, len}          bytes number i (1, 2, 3) written "first", "again" (same process) or "fresh" (new process); how = "input" for given bytes
+//	after {case, i, f}                      projection of generation i again, after all its writes in this process
 //	fail  {case, step, msg}                 a step returned an error or panicked
 package main
 
@@ -232,6 +233,15 @@ func runCase(c *Case, out *vio.Out) {
 		out.Emit(genEv{"gen", c.ID, i, p})
 		return true
 	}
+	after := func(i int, f *sfnt.Font) bool {
+		p, err := safeProject(f)
+		if err != nil {
+			fail(fmt.Sprintf("project%d", i), err)
+			return false
+		}
+		out.Emit(genEv{"after", c.ID, i, p})
+		return true
+	}
 	// writes font f as bytes number i; repeated writes are logged too
 	write := func(i int, f *sfnt.Font, again int) []byte {
 		b, err := safeWrite(f)
@@ -270,6 +280,9 @@ func runCase(c *Case, out *vio.Out) {
 		if b1 = write(1, g0, c.Again); b1 == nil {
 			return
 		}
+		if !after(0, g0) {
+			return
+		}
 		if !fresh(1) {
 			return
 		}
@@ -287,6 +300,9 @@ func runCase(c *Case, out *vio.Out) {
 	}
 	b2 := write(2, g1, c.Again)
 	if b2 == nil {
+		return
+	}
+	if !after(1, g1) {
 		return
 	}
 	if c.Src != "built" && !fresh(2) {
